@@ -74,7 +74,8 @@ def gen_case(rng: random.Random) -> dict[str, Any]:
             script.append({"at": exit_at - 0.05, "op": "cancel", "h": s["h"]})
     script.sort(key=lambda x: x["at"])
     return {"kind": "factory", "handler": rng.choice([None, True, False]), "handler_obj": rng.choice([None, None, "truthy", "falsy"]),
-            "factory_via_shortcut": rng.random() < 0.4, "pre_res": rng.sample([1, 2, 3], rng.randint(0, 3)),
+            "factory_via_shortcut": (via_sc := rng.random() < 0.4), "factory_from_nested": not via_sc and rng.random() < 0.4,
+            "pre_res": rng.sample([1, 2, 3], rng.randint(0, 3)),
             "specs": specs, "script": script, "exit_at": exit_at, "nested_owner": rng.random() < 0.4}
 
 
